@@ -117,7 +117,8 @@ async def run_async(scn):
             e = {'ev': 'Serve', 'call': call, 'executed': executed[nexec:] == [call], 'acks': head.acks, 'published': len(pubs) == 1}
             if len(pubs) == 1:
                 rk, m = pubs[0][1], pubs[0][2]
-                e.update({'same_cid': m.correlation_id == head.correlation_id, 'to_reply_queue': rk == head.reply_to, 'ctype_ok': m.content_type == JSON_CT})
+                e.update({'same_cid': m.correlation_id == head.correlation_id, 'to_reply_queue': rk == head.reply_to, 'ctype_ok': m.content_type == JSON_CT,
+                          'to_nowhere': rk == '' and BROKER.consumers.get('') is None})
             elif pubs:
                 e['published_n'] = len(pubs)
             ev.append(e)
@@ -133,6 +134,11 @@ async def run_async(scn):
             BROKER.publish(aio_pika.Message(body=b'{"jsonrpc": "2.0", "id": 1, "result": "stray"}', correlation_id=cid,
                                             content_type=JSON_CT if st['ctype'] == 'json' else 'text/plain'), qname(st['q']))
             ev.append({'ev': 'Stray', 'q': st['q'], 'cid': st['cid'], 'ctype': st['ctype']})
+        elif op == 'foreign':
+            # another producer: a call that names no reply queue, or bytes that are not text
+            body = b'\xff\xfe\x00garbage' if st['ctype'] == 'garbage' else json.dumps({'jsonrpc': '2.0', 'id': 77, 'method': 'ok', 'params': [0]}).encode()
+            BROKER.publish(aio_pika.Message(body=body, correlation_id='foreign-1', content_type=JSON_CT), 'rpc')
+            ev.append({'ev': 'Foreign', 'k': st['ctype']})
         elif op == 'close':
             await client.close()
             await quiesce()
